@@ -609,7 +609,7 @@ func runC16(r *evid.Run) {
 	}{{8, false, r.Pick(12, 120)}, {16, false, r.Pick(6, 60)}, {8, true, r.Pick(6, 60)}} {
 		dir := filepath.Join(scratch, fmt.Sprintf("gs_%d", i))
 		os.MkdirAll(dir, 0o755)
-		cfg := fmt.Sprintf("SPECIFICATION Spec\nCONSTANTS\n RSize = %d\n MaxLen = 7\n WithIf = %s\n NoAssign = FALSE\n Repeat = 1\nINVARIANT TypeOK\nCHECK_DEADLOCK FALSE\n", a.rsize, strings.ToUpper(fmt.Sprint(a.withIf)))
+		cfg := fmt.Sprintf("SPECIFICATION Spec\nCONSTANTS\n RSize = %d\n MaxLen = 7\n WithIf = %s\n NoAssign = FALSE\n Repeat = 1\n WithCalls = FALSE\nINVARIANT TypeOK\nCHECK_DEADLOCK FALSE\n", a.rsize, strings.ToUpper(fmt.Sprint(a.withIf)))
 		if _, err := tlc.Run(tlc.Options{SpecDir: specDir, Module: "GoSubset", CfgText: cfg, Workers: 1, Timeout: 15 * time.Minute,
 			Args: []string{"-simulate", fmt.Sprintf("file=%s/b,num=%d", dir, a.n), "-depth", "8", "-seed", strconv.FormatInt(r.Seed*19+int64(i), 10)}}); err != nil {
 			r.Inconclusive("tlc simulate GoSubset: %v", err)
